@@ -63,6 +63,10 @@ func evalFunctionCall(vm *r.VM, expr *syntax.FuncCallExpr) (r.Element, error) {
 func execMethodFunction(vm *r.VM, root r.Element, funcName *r.IDName, params []r.Element) (r.Element, error) {
 	switch robj := root.(type) {
 	case *value.Object:
+		// (before a frame is pushed: without such a method no call takes place)
+		if !robj.HasMethod(funcName.GetLiteral()) {
+			return nil, zerr.MethodNotFound(funcName.GetLiteral())
+		}
 		// the methods of an object run in the module that declares its class - also where
 		// the class NAME is not visible (an object handed out by an imported method) or
 		// where the same name denotes another class
